@@ -12,20 +12,66 @@
 (* A write whose whole logged interval lies inside a logged pin interval   *)
 (* certainly happened while the extent was pinned.  If it hit blocks the   *)
 (* pinned reader reads, the rule is broken.                                *)
+(*                                                                         *)
+(* Second layer (RetireProtocol): the retirement pass's own events on the  *)
+(* same generations - ret_bit, ret_wait, ret_mark, ret_marked, release -   *)
+(* drive the per-generation word of PinProto.tla (the operators Pin.tla    *)
+(* model-checks).  pin / unpin are logged strictly inside the real pin     *)
+(* interval, so the logged reader count never exceeds the real one, and    *)
+(* ret_mark / release are logged after the reader count was read as zero   *)
+(* with the retired bit already set.  On code that follows the protocol    *)
+(* no logged pin can therefore be open at ret_mark or release, and no pin  *)
+(* can be logged after ret_mark: each of the three is a decision to        *)
+(* overwrite or reuse blocks a reader still holds.                         *)
 (***************************************************************************)
 EXTENDS Naturals, Sequences, FiniteSets, TLC, Json, IOUtils
 
-VARIABLES pins,     \* set of [id, tid, range, over]
+VARIABLES pins,     \* set of [id, tid, range, over, g]
+          pg,       \* generation id -> word of PinProto (readers = pins logged open)
+          pflags,   \* protocol guards found false
           openw,    \* set of [tid, blocks, started]
           loose,    \* tid -> blocks overwritten since that thread released its last pin
           l, bad
-pvars == <<pins, openw, loose, l, bad>>
+pvars == <<pins, openw, loose, l, bad, pg, pflags>>
+
+P == INSTANCE PinProto WITH AcquireRefusesRetired <- TRUE
 
 Rec == ndJsonDeserialize(IOEnv.TRACE)
 Ev == Rec[l]
 Blk(s, n) == s .. (s + n - 1)
 
-PInit == pins = {} /\ openw = {} /\ loose = <<>> /\ l = 1 /\ bad = FALSE
+PInit == pins = {} /\ openw = {} /\ loose = <<>> /\ l = 1 /\ bad = FALSE /\ pg = <<>> /\ pflags = {}
+
+GenOf(e) == IF "g" \in DOMAIN e THEN e.g ELSE "?"
+Ensure(G, g) == IF g \in DOMAIN G THEN G
+                ELSE [x \in (DOMAIN G) \cup {g} |-> IF x = g THEN P!LiveGen({}) ELSE G[x]]
+Flag(cond, name) == IF cond THEN {name} ELSE {}
+
+\* the retirement protocol layer: returns <<pg', new flags>>
+Proto(e) ==
+  CASE e.e = "reset" -> <<<<>>, {}>>
+    [] e.e = "pin" ->
+         LET G == Ensure(pg, GenOf(e)) IN
+         <<P!AcquireF(G, GenOf(e)), Flag(~P!PinAllowed(G, GenOf(e)), "PinAfterMark")>>
+    [] e.e = "unpin" ->
+         LET mine == {p \in pins : p.id = e.id /\ p.tid = e.tid} IN
+         IF mine = {} THEN <<pg, {}>>
+         ELSE LET p == CHOOSE x \in mine : TRUE IN <<P!ReleaseF(Ensure(pg, p.g), p.g), {}>>
+    [] e.e = "ret_bit" -> <<P!BitF(Ensure(pg, e.g), e.g), {}>>
+    [] e.e = "ret_wait" -> <<IF e.why = 1 THEN P!WaitF(Ensure(pg, e.g), e.g) ELSE pg, {}>>
+    [] e.e = "ret_mark" ->
+         LET G == Ensure(pg, e.g) IN
+         <<[P!MarkDecideF(G, e.g) EXCEPT ![e.g].ext = Blk(e.s, e.n)],
+           Flag(P!HasReaders(G, e.g), "MarkWhilePinned")>>
+    [] e.e = "ret_marked" ->
+         <<[g \in DOMAIN pg |-> IF pg[g].phase = "tomark" THEN P!MarkedF(pg, g)[g] ELSE pg[g]], {}>>
+    [] e.e = "release" ->
+         LET R == Blk(e.s, e.n)
+             hit == {g \in DOMAIN pg : pg[g].ext \cap R # {} /\ pg[g].phase # "released"}
+             done == {g \in hit : pg[g].phase = "marked" /\ pg[g].ext \subseteq R} IN
+         <<[g \in DOMAIN pg |-> IF g \in done THEN P!ReleasedF(pg, g)[g] ELSE pg[g]],
+           Flag(\E g \in hit : P!HasReaders(pg, g), "ReleaseWhilePinned")>>
+    [] OTHER -> <<pg, {}>>
 
 AddLoose(blocks) == [t \in DOMAIN loose |-> loose[t] \cup blocks]
 Drop(f, t) == [x \in (DOMAIN f) \ {t} |-> f[x]]
@@ -35,7 +81,7 @@ Step ==
   LET e == Ev IN
   CASE e.e = "reset" -> pins' = {} /\ openw' = {} /\ bad' = FALSE /\ loose' = <<>>
     [] e.e = "pin" ->
-         /\ pins' = pins \cup {[id |-> e.id, tid |-> e.tid, range |-> {}, over |-> {}]}
+         /\ pins' = pins \cup {[id |-> e.id, tid |-> e.tid, range |-> {}, over |-> {}, g |-> GenOf(e)]}
          /\ loose' = Drop(loose, e.tid)
          /\ UNCHANGED <<openw, bad>>
     [] e.e = "pread" ->
@@ -69,10 +115,12 @@ Step ==
          /\ loose' = AddLoose(UNION {w.blocks : w \in done})
     [] OTHER -> UNCHANGED <<pins, openw, bad, loose>>
 
-PNext == l <= Len(Rec) /\ l' = l + 1 /\ Step
+PNext == /\ l <= Len(Rec) /\ l' = l + 1 /\ Step
+         /\ LET r == Proto(Ev) IN pg' = r[1] /\ pflags' = (IF Ev.e = "reset" THEN {} ELSE pflags \cup r[2])
 PSpec == PInit /\ [][PNext]_pvars
 
 NoOverwriteWhilePinned == ~bad
+RetireProtocol == pflags = {}
 
 TraceAccepted ==
   IF TLCGet("stats").diameter = Len(Rec) + 1 THEN TRUE
